@@ -7,7 +7,11 @@
 //! * a *clock hook*, consulted instead of the wall clock by the functions that
 //!   infer a missing year/day or turn a time zone name into an offset "now".
 //!
-//! Until a callback is installed both hooks are no-ops, so enabling the feature
+//! * a *blocked hook*, called by the stand-ins of [`sync`] when a lock cannot be
+//!   taken right now, so that a scheduler which runs one thread at a time can let
+//!   the holder run instead of dead-locking.
+//!
+//! Until a callback is installed all hooks are no-ops, so enabling the feature
 //! alone does not change behaviour.
 
 use std::sync::OnceLock;
@@ -16,6 +20,7 @@ use chrono::{DateTime, Utc};
 
 static YIELD_HOOK: OnceLock<fn(&'static str)> = OnceLock::new();
 static CLOCK_HOOK: OnceLock<fn() -> Option<DateTime<Utc>>> = OnceLock::new();
+static BLOCKED_HOOK: OnceLock<fn(&'static str) -> bool> = OnceLock::new();
 
 /// Installs the yield callback. Only the first call has an effect.
 pub fn set_yield_hook(hook: fn(&'static str)) {
@@ -25,6 +30,19 @@ pub fn set_yield_hook(hook: fn(&'static str)) {
 /// Installs the clock callback. Only the first call has an effect.
 pub fn set_clock_hook(hook: fn() -> Option<DateTime<Utc>>) {
     let _ = CLOCK_HOOK.set(hook);
+}
+
+/// Installs the blocked callback. Only the first call has an effect.
+pub fn set_blocked_hook(hook: fn(&'static str) -> bool) {
+    let _ = BLOCKED_HOOK.set(hook);
+}
+
+/// The calling thread cannot proceed until another thread has run (a lock is held elsewhere).
+/// Returns `true` if the simulator let another thread run (the caller should try again) and
+/// `false` if the caller should simply block.
+#[inline]
+pub fn yield_blocked(site: &'static str) -> bool {
+    BLOCKED_HOOK.get().is_some_and(|hook| hook(site))
 }
 
 /// A point at which the simulator may switch to another caller thread.
@@ -40,4 +58,335 @@ pub fn yield_point(site: &'static str) {
 #[must_use]
 pub fn now_override() -> Option<DateTime<Utc>> {
     CLOCK_HOOK.get().and_then(|hook| hook())
+}
+
+/// Scheduler-aware stand-ins for `std::sync` primitives.
+///
+/// A simulator that wants interleavings *inside* function bodies builds VRL from a copy of the
+/// sources in which `std::sync::{Mutex, RwLock, atomic::*}` are textually redirected to
+/// this module. Each operation first reports a yield point; blocking operations never block the
+/// calling thread while a scheduler is installed (they `try_*` and report "blocked" instead), so a
+/// scheduler that runs one thread at a time cannot deadlock on a lock held by a parked thread.
+/// Without installed hooks every type behaves exactly like the `std` type it wraps. The guards
+/// returned are the `std` guards.
+pub mod sync {
+    use std::fmt;
+    use std::sync::{LockResult, PoisonError, TryLockError, TryLockResult};
+
+    use super::{yield_blocked, yield_point};
+
+    pub use std::sync::{MutexGuard, RwLockReadGuard, RwLockWriteGuard};
+
+    #[derive(Default)]
+    pub struct Mutex<T: ?Sized>(std::sync::Mutex<T>);
+
+    impl<T> Mutex<T> {
+        pub const fn new(t: T) -> Self {
+            Mutex(std::sync::Mutex::new(t))
+        }
+
+        pub fn into_inner(self) -> LockResult<T> {
+            self.0.into_inner()
+        }
+    }
+
+    impl<T: ?Sized> Mutex<T> {
+        pub fn lock(&self) -> LockResult<MutexGuard<'_, T>> {
+            yield_point("mutex-lock");
+            loop {
+                match self.0.try_lock() {
+                    Ok(guard) => return Ok(guard),
+                    Err(TryLockError::Poisoned(e)) => return Err(PoisonError::new(e.into_inner())),
+                    Err(TryLockError::WouldBlock) => {
+                        if !yield_blocked("mutex-lock") {
+                            return self.0.lock();
+                        }
+                    }
+                }
+            }
+        }
+
+        pub fn try_lock(&self) -> TryLockResult<MutexGuard<'_, T>> {
+            yield_point("mutex-try-lock");
+            self.0.try_lock()
+        }
+
+        pub fn is_poisoned(&self) -> bool {
+            self.0.is_poisoned()
+        }
+
+        pub fn clear_poison(&self) {
+            self.0.clear_poison();
+        }
+
+        pub fn get_mut(&mut self) -> LockResult<&mut T> {
+            self.0.get_mut()
+        }
+    }
+
+    impl<T> From<T> for Mutex<T> {
+        fn from(t: T) -> Self {
+            Mutex::new(t)
+        }
+    }
+
+    impl<T: ?Sized + fmt::Debug> fmt::Debug for Mutex<T> {
+        fn fmt(&self, f: &mut fmt::Formatter<'_>) -> fmt::Result {
+            self.0.fmt(f)
+        }
+    }
+
+    #[derive(Default)]
+    pub struct RwLock<T: ?Sized>(std::sync::RwLock<T>);
+
+    impl<T> RwLock<T> {
+        pub const fn new(t: T) -> Self {
+            RwLock(std::sync::RwLock::new(t))
+        }
+
+        pub fn into_inner(self) -> LockResult<T> {
+            self.0.into_inner()
+        }
+    }
+
+    impl<T: ?Sized> RwLock<T> {
+        pub fn read(&self) -> LockResult<RwLockReadGuard<'_, T>> {
+            yield_point("rwlock-read");
+            loop {
+                match self.0.try_read() {
+                    Ok(guard) => return Ok(guard),
+                    Err(TryLockError::Poisoned(e)) => return Err(PoisonError::new(e.into_inner())),
+                    Err(TryLockError::WouldBlock) => {
+                        if !yield_blocked("rwlock-read") {
+                            return self.0.read();
+                        }
+                    }
+                }
+            }
+        }
+
+        pub fn write(&self) -> LockResult<RwLockWriteGuard<'_, T>> {
+            yield_point("rwlock-write");
+            loop {
+                match self.0.try_write() {
+                    Ok(guard) => return Ok(guard),
+                    Err(TryLockError::Poisoned(e)) => return Err(PoisonError::new(e.into_inner())),
+                    Err(TryLockError::WouldBlock) => {
+                        if !yield_blocked("rwlock-write") {
+                            return self.0.write();
+                        }
+                    }
+                }
+            }
+        }
+
+        pub fn try_read(&self) -> TryLockResult<RwLockReadGuard<'_, T>> {
+            yield_point("rwlock-try-read");
+            self.0.try_read()
+        }
+
+        pub fn try_write(&self) -> TryLockResult<RwLockWriteGuard<'_, T>> {
+            yield_point("rwlock-try-write");
+            self.0.try_write()
+        }
+
+        pub fn is_poisoned(&self) -> bool {
+            self.0.is_poisoned()
+        }
+
+        pub fn clear_poison(&self) {
+            self.0.clear_poison();
+        }
+
+        pub fn get_mut(&mut self) -> LockResult<&mut T> {
+            self.0.get_mut()
+        }
+    }
+
+    impl<T> From<T> for RwLock<T> {
+        fn from(t: T) -> Self {
+            RwLock::new(t)
+        }
+    }
+
+    impl<T: ?Sized + fmt::Debug> fmt::Debug for RwLock<T> {
+        fn fmt(&self, f: &mut fmt::Formatter<'_>) -> fmt::Result {
+            self.0.fmt(f)
+        }
+    }
+
+    pub mod atomic {
+        use std::fmt;
+
+        pub use std::sync::atomic::{AtomicPtr, Ordering, compiler_fence, fence};
+
+        use super::super::yield_point;
+
+        macro_rules! atomic_int {
+            ($name:ident, $std:ident, $prim:ty) => {
+                #[derive(Default)]
+                pub struct $name(std::sync::atomic::$std);
+
+                impl $name {
+                    pub const fn new(v: $prim) -> Self {
+                        $name(std::sync::atomic::$std::new(v))
+                    }
+                    pub fn into_inner(self) -> $prim {
+                        self.0.into_inner()
+                    }
+                    pub fn get_mut(&mut self) -> &mut $prim {
+                        self.0.get_mut()
+                    }
+                    pub fn load(&self, order: Ordering) -> $prim {
+                        yield_point("atomic-load");
+                        self.0.load(order)
+                    }
+                    pub fn store(&self, v: $prim, order: Ordering) {
+                        yield_point("atomic-store");
+                        self.0.store(v, order);
+                    }
+                    pub fn swap(&self, v: $prim, order: Ordering) -> $prim {
+                        yield_point("atomic-rmw");
+                        self.0.swap(v, order)
+                    }
+                    pub fn compare_exchange(&self, current: $prim, new: $prim, success: Ordering, failure: Ordering) -> Result<$prim, $prim> {
+                        yield_point("atomic-rmw");
+                        self.0.compare_exchange(current, new, success, failure)
+                    }
+                    pub fn compare_exchange_weak(&self, current: $prim, new: $prim, success: Ordering, failure: Ordering) -> Result<$prim, $prim> {
+                        yield_point("atomic-rmw");
+                        self.0.compare_exchange_weak(current, new, success, failure)
+                    }
+                    pub fn fetch_add(&self, v: $prim, order: Ordering) -> $prim {
+                        yield_point("atomic-rmw");
+                        self.0.fetch_add(v, order)
+                    }
+                    pub fn fetch_sub(&self, v: $prim, order: Ordering) -> $prim {
+                        yield_point("atomic-rmw");
+                        self.0.fetch_sub(v, order)
+                    }
+                    pub fn fetch_and(&self, v: $prim, order: Ordering) -> $prim {
+                        yield_point("atomic-rmw");
+                        self.0.fetch_and(v, order)
+                    }
+                    pub fn fetch_or(&self, v: $prim, order: Ordering) -> $prim {
+                        yield_point("atomic-rmw");
+                        self.0.fetch_or(v, order)
+                    }
+                    pub fn fetch_xor(&self, v: $prim, order: Ordering) -> $prim {
+                        yield_point("atomic-rmw");
+                        self.0.fetch_xor(v, order)
+                    }
+                    pub fn fetch_max(&self, v: $prim, order: Ordering) -> $prim {
+                        yield_point("atomic-rmw");
+                        self.0.fetch_max(v, order)
+                    }
+                    pub fn fetch_min(&self, v: $prim, order: Ordering) -> $prim {
+                        yield_point("atomic-rmw");
+                        self.0.fetch_min(v, order)
+                    }
+                    pub fn fetch_update<F>(&self, set_order: Ordering, fetch_order: Ordering, f: F) -> Result<$prim, $prim>
+                    where
+                        F: FnMut($prim) -> Option<$prim>,
+                    {
+                        yield_point("atomic-rmw");
+                        self.0.fetch_update(set_order, fetch_order, f)
+                    }
+                }
+
+                impl From<$prim> for $name {
+                    fn from(v: $prim) -> Self {
+                        $name::new(v)
+                    }
+                }
+
+                impl fmt::Debug for $name {
+                    fn fmt(&self, f: &mut fmt::Formatter<'_>) -> fmt::Result {
+                        self.0.fmt(f)
+                    }
+                }
+            };
+        }
+
+        atomic_int!(AtomicU8, AtomicU8, u8);
+        atomic_int!(AtomicU16, AtomicU16, u16);
+        atomic_int!(AtomicU32, AtomicU32, u32);
+        atomic_int!(AtomicU64, AtomicU64, u64);
+        atomic_int!(AtomicUsize, AtomicUsize, usize);
+        atomic_int!(AtomicI8, AtomicI8, i8);
+        atomic_int!(AtomicI16, AtomicI16, i16);
+        atomic_int!(AtomicI32, AtomicI32, i32);
+        atomic_int!(AtomicI64, AtomicI64, i64);
+        atomic_int!(AtomicIsize, AtomicIsize, isize);
+
+        #[derive(Default)]
+        pub struct AtomicBool(std::sync::atomic::AtomicBool);
+
+        impl AtomicBool {
+            pub const fn new(v: bool) -> Self {
+                AtomicBool(std::sync::atomic::AtomicBool::new(v))
+            }
+            pub fn into_inner(self) -> bool {
+                self.0.into_inner()
+            }
+            pub fn get_mut(&mut self) -> &mut bool {
+                self.0.get_mut()
+            }
+            pub fn load(&self, order: Ordering) -> bool {
+                yield_point("atomic-load");
+                self.0.load(order)
+            }
+            pub fn store(&self, v: bool, order: Ordering) {
+                yield_point("atomic-store");
+                self.0.store(v, order);
+            }
+            pub fn swap(&self, v: bool, order: Ordering) -> bool {
+                yield_point("atomic-rmw");
+                self.0.swap(v, order)
+            }
+            pub fn compare_exchange(&self, current: bool, new: bool, success: Ordering, failure: Ordering) -> Result<bool, bool> {
+                yield_point("atomic-rmw");
+                self.0.compare_exchange(current, new, success, failure)
+            }
+            pub fn compare_exchange_weak(&self, current: bool, new: bool, success: Ordering, failure: Ordering) -> Result<bool, bool> {
+                yield_point("atomic-rmw");
+                self.0.compare_exchange_weak(current, new, success, failure)
+            }
+            pub fn fetch_and(&self, v: bool, order: Ordering) -> bool {
+                yield_point("atomic-rmw");
+                self.0.fetch_and(v, order)
+            }
+            pub fn fetch_or(&self, v: bool, order: Ordering) -> bool {
+                yield_point("atomic-rmw");
+                self.0.fetch_or(v, order)
+            }
+            pub fn fetch_xor(&self, v: bool, order: Ordering) -> bool {
+                yield_point("atomic-rmw");
+                self.0.fetch_xor(v, order)
+            }
+            pub fn fetch_nand(&self, v: bool, order: Ordering) -> bool {
+                yield_point("atomic-rmw");
+                self.0.fetch_nand(v, order)
+            }
+            pub fn fetch_update<F>(&self, set_order: Ordering, fetch_order: Ordering, f: F) -> Result<bool, bool>
+            where
+                F: FnMut(bool) -> Option<bool>,
+            {
+                yield_point("atomic-rmw");
+                self.0.fetch_update(set_order, fetch_order, f)
+            }
+        }
+
+        impl From<bool> for AtomicBool {
+            fn from(v: bool) -> Self {
+                AtomicBool::new(v)
+            }
+        }
+
+        impl fmt::Debug for AtomicBool {
+            fn fmt(&self, f: &mut fmt::Formatter<'_>) -> fmt::Result {
+                self.0.fmt(f)
+            }
+        }
+    }
 }
